@@ -193,8 +193,8 @@ def cmp_od(od, od2, doc, st, rc, tag):
 
 
 def decorate(od, k):
-    od.node_id = (7, 127, 1)[k % 3]
-    od.bitrate = (250000, 1000000, 10000)[k % 3]
+    od.node_id = (7, 127, 1, None, 5, None)[k % 6]
+    od.bitrate = (250000, 1000000, 10000, 500000, None, None)[k % 6]
     od.comments = ("", "single line", "line one\nline two", "c1\n\nc3")[k % 4]
     di = od.device_information
     di.vendor_name, di.vendor_number = "ACME %d" % k, 0x1234 + k
